@@ -152,7 +152,11 @@ func VH_C07_OpenRetry() {
 	verifrt.Assume(verifrt.BoolI("sm.refuse", 0)) // first attempt refused -> retry loop
 	gc0 := st.GameCount
 	lv, a, d, sb, bb := verifrt.IntRange("nb.level", -1, 2), verifrt.Int64("nb.ante"), verifrt.Int64("nb.dealer"), verifrt.Int64("nb.sb"), verifrt.Int64("nb.bb")
-	env := verifrt.Cfg("env") // what arrives during the first retry sleep: 0 blind update, 1 close, 2 release
+	env := verifrt.Cfg("env") // what arrives during the first retry sleep: 0 blind update, 1 close, 2 release, 3 join, 4 add-on
+	who := verifrt.IntRange("env.who", 0, n-1)
+	amount := verifrt.Int64("env.amount")
+	verifrt.Assume(amount >= 0 && amount < 1<<40)
+	bank0 := st.PlayerStates[who].Bankroll
 	verifrt.DuringSleep(1, 3*time.Second, func() {
 		switch env {
 		case 0:
@@ -161,11 +165,35 @@ func VH_C07_OpenRetry() {
 			te.CloseTable()
 		case 2:
 			te.ReleaseTable()
+		case 3:
+			// the player the retry is waiting for sits in (the engine lock is held by the retry
+			// loop all the while: an operation that needs it would block until the loop gives up)
+			te.PlayerJoin(vhIDs[who])
+		case 4:
+			te.PlayerRedeemChips(JoinPlayer{PlayerID: vhIDs[who], RedeemChips: amount})
 		}
 	})
 	err := te.tableGameOpen()
 	opened := len(w.bk.calls) > 0
 	bs := te.table.State.BlindState
+	if env >= 3 {
+		idx := te.table.FindPlayerIdx(vhIDs[who])
+		verifrt.Assert(idx >= 0, "the player is still at the table")
+		if env == 3 {
+			verifrt.Assert(te.table.State.PlayerStates[idx].IsIn, "a player who sat in while the open was being retried is seated-in afterwards")
+		} else {
+			verifrt.Assert(te.table.State.PlayerStates[idx].Bankroll == bank0+amount, "chips added while the open was being retried are on the live table afterwards")
+			if opened {
+				for k, pi := range te.table.State.GamePlayerIndexes {
+					if pi == idx {
+						verifrt.Assert(w.bk.calls[0].opts.Players[k].Bankroll == bank0+amount, "the hand starts with the topped-up stack")
+					}
+				}
+			}
+		}
+		verifrt.Reach("end")
+		return
+	}
 	if env != 0 {
 		verifrt.Assert(!opened && te.table.State.GameCount == gc0 && te.table.State.Status != TableStateStatus_TableGamePlaying, "no hand opens after the table was closed or released while the open was being retried")
 		verifrt.Reach("end")
@@ -181,5 +209,47 @@ func VH_C07_OpenRetry() {
 		verifrt.Reach("not opened")
 		verifrt.Assert(te.table.State.GameCount == gc0 && te.table.State.Status == TableStateStatus_TableGameStandby, "no hand opened: status and count stay")
 	}
+	verifrt.Reach("end")
+}
+
+
+// VH_C07_GateFault: the asynchronous trigger (open-game gate -> callback installed by
+// CreateTable -> tableGameOpen) with a hand engine that refuses to create the hand: the
+// failure is reported, the opened-but-unstarted hand stays the table's one unsettled hand
+// (status opened, count consumed) and no further set-up opens another hand on top of it.
+func VH_C07_GateFault() {
+	n := verifrt.Cfg("n")
+	M := verifrt.Cfg("M")
+	vhConcreteLayout = true
+	w := vhOpenedWorld(n, M)
+	te := w.te
+	st := te.table.State
+	verifrt.Assume(st.Status == TableStateStatus_TableGameStandby && st.BlindState.IsSet() && !st.BlindState.IsBreaking() && !te.isReleased)
+	gc := st.GameCount
+	parts := map[string]int{}
+	for i, p := range st.PlayerStates {
+		parts[p.PlayerID] = i
+	}
+	og := te.ogm.(interface {
+		ModelStepped(bool)
+		ModelSettle(int) bool
+	})
+	og.ModelStepped(true)
+	w.bk.faults = true
+	w.bk.tagN = 0
+	verifrt.Assume(verifrt.BoolI("bk.fail", 0)) // the creation of the hand is refused
+	errs0 := w.rec.errors
+	te.SetUpTableGame(gc+1, parts)
+	fired := og.ModelSettle(n + 1)
+	verifrt.Assert(fired, "the gate completes at the timeout")
+	verifrt.RunPendingNamed("emitErrorEvent")
+	verifrt.Assert(len(w.bk.calls) == 1 && w.bk.calls[0].kind == "create", "the hand engine was asked once")
+	verifrt.Assert(w.rec.errors == errs0+1, "the refused creation is reported through the table error callback")
+	verifrt.Assert(te.table.State.Status == TableStateStatus_TableGameOpened && te.table.State.GameCount == gc+1, "the status never moves from opened back to standby: the hand that could not be started remains the table's unsettled hand")
+	// the next set-up must not open a second hand on top of it
+	w.bk.tagN = 1
+	te.SetUpTableGame(gc+2, parts)
+	og.ModelSettle(n + 1)
+	verifrt.Assert(len(w.bk.calls) == 1 && te.table.State.GameCount == gc+1, "no new hand opens while another is unsettled")
 	verifrt.Reach("end")
 }
